@@ -700,10 +700,29 @@ class Model(object):
             if fname == "re.compile":
                 pat = ev(node.args[0], m, env)
                 flags = 0
-                if len(node.args) > 1 or node.keywords:
-                    raise NotConst("re.compile with flags is not supported by the regex engine")
+                fl = None
+                if len(node.args) > 2 or any(k.arg != "flags" for k in node.keywords):
+                    raise NotConst("re.compile with unexpected arguments")
+                if len(node.args) == 2:
+                    fl = node.args[1]
+                for k in node.keywords:
+                    fl = k.value
                 if not isinstance(pat, str):
                     raise NotConst("re.compile of non-string")
+                if fl is not None:
+                    def flagset(n):
+                        if isinstance(n, ast.BinOp) and isinstance(n.op, ast.BitOr):
+                            return flagset(n.left) | flagset(n.right)
+                        d = dotted(n) or ""
+                        if d in ("re.DOTALL", "re.S"):
+                            return {"s"}
+                        if d in ("re.UNICODE", "re.U"):
+                            return set()
+                        if isinstance(n, ast.Constant) and n.value == 0:
+                            return set()
+                        raise NotConst("re.compile with flags other than DOTALL is not supported by the regex engine")
+                    if flagset(fl):
+                        pat = "(?s)" + pat        # carried as a global inline flag: same language, and the engine reads it from there
                 return RegexConst(pat, flags)
             if fname == "type" and len(node.args) == 1 and isinstance(node.args[0], ast.Constant) and node.args[0].value is None:
                 return TypeMarker("NoneType")
